@@ -5,6 +5,18 @@ HOOK_COMMITS = ["9a1a70b"]
 TB = "Trusted base: TLC 1.8.0 + CommunityModules (Json), the Go toolchain and standard library, the harness projections."
 
 CHECKS = {
+    "C01": dict(
+        text="PdfLayout.tla: a logical document and a 15-option physical layout chosen option by option (xref kind, object streams, "
+             "filter chain, /Length placement, size class, content splitting, tree depth/shape, where MediaBox and Resources live with "
+             "decoys above, revisions, numbering, file order, EOL); Expected(L) is the contract (page count = leaves, per-page items, "
+             "nearest-ancestor box). TLC random-walks/enumerates layouts, the independent writer renders each, tabula.Open / "
+             "reader.Open read it back, and PdfLayoutTrace.tla judges every recorded observation against Expected(L). ReaderIO.tla "
+             "(shared file position vs per-parser section) and PageTreeInherit.tla (one-parent vs environment passing) are "
+             "implementation-shaped models checked exhaustively, pinned variants refuted. Failures are minimised in the layout space.",
+        design_ref="4.1",
+        note=TB + " pdfw/pdfdoc independent writer with structural self-audit; zlib trusted; encryption, hybrid files, linearisation out of scope.",
+        technique="TLA+ layout-choice machine + TLC, rendered-file replay with greedy abstract minimisation, trace validation of observations",
+    ),
     "C03": dict(
         text="ParseIsolation.tla models contentstream.Parser at the granularity Push/Copy/Clear with per-parser or shared pending "
              "operands; TLC proves Isolation for the per-parser layer over all interleavings of 2 processes x 2 calls x streams <= 3 "
